@@ -467,7 +467,7 @@ func (c *cluster) commit(n ch.NodeID, expected replication.AuthorityID, cmd comm
 	rc, err := rt.Log().Commit(ctx, replication.Proposal{Key: chanKey, Expected: expected, CommandID: cmd.id, Records: cmd.records})
 	cancel()
 	c.event(kit.Ev("CommitRet", "n", int(n), "cmd", cmdHex(cmd.id), "ok", err == nil, "err", errClass(err),
-		"first", int64(rc.First), "last", int64(rc.Last), "hw", int64(rc.HW), "auth", authInt(rc.Authority),
+		"first", int64(rc.First), "last", int64(rc.Last), "hw", int64(rc.HW), "auth", authInt(rc.Authority), "exp", authInt(expected),
 		"nrec", len(cmd.records), "changed", changed))
 	return rc, err
 }
